@@ -88,12 +88,20 @@ def table(prog):
             have = t.setdefault(key, [])
             # the comparator's delegations (cmp calls) are already there as ORDER effects: add the returned constants only
             have.extend(r for r in rows if r[0].startswith("return "))
+    # comparators whose whole decision table is checked semantically (cmpsem) have no rows here
+    from . import cmpsem
+    for fid in fids:
+        if "error" not in cmpsem.decision_table(prog, fid) and prog.bodies[fid].locals and prog.bodies[fid].locals[0]["ty"] == "std::cmp::Ordering":
+            t.pop(re.sub(r"\{closure#\d+\}", "{closure}", mir.strip_generics(fid)), None)
     for k in t:
         t[k].sort(key=lambda r: (r[0], r[1]))
     return t
 
 
 def compare(chk, rule, fn_filter=None, floor=1):
+    from . import cmpsem
+    if fn_filter is None or fn_filter("writer::Writer::sort_function"):
+        cmpsem.compare(chk, rule + "-cmp", select=lambda n: n.startswith("writer::"), floor=1)
     diag.compare(chk, rule, "writer", table(mir.prog()), "text production and ordering decisions of writer.rs (what is appended / sorted / skipped under which condition), compared with the reviewed table", floor=floor, fn_filter=fn_filter)
 
 
